@@ -23,10 +23,10 @@ def opsThunks (t : List String) : Option String :=
       let os ← ranges.mapM parseRange?
       let res := assignThunkBlocks r os
       some (s!"n={res.2}" ++ showAsg res.1)
-  | "thunk-assign-unfixed" :: r :: ranges => do
+  | "thunk-assign-proposed" :: r :: ranges => do
       let r ← parseNat? r
       let os ← ranges.mapM parseRange?
-      let res := assignThunkBlocksUnfixed r os
+      let res := assignThunkBlocksProposed r os
       some (s!"n={res.2}" ++ showAsg res.1)
   | ["thunk-write", th, tg] => do
       let th ← parseNat? th; let tg ← parseNat? tg
